@@ -57,21 +57,17 @@ impl Semphore {
         }
     }
 
+    // wake up the first waiter; true if it had given up meanwhile (timeout, cancel)
+    // and hands the permit back
     #[inline]
-    fn wakeup_one(&self) {
-        self.to_wake
-            .pop()
-            .map(|w| {
-                #[cfg(may_verif)]
-                may_queue::verif::point(may_queue::verif::site::SEM_WAKEUP_POPPED, self as *const _ as usize);
-                w.unpark();
-                #[cfg(may_verif)]
-                may_queue::verif::point(may_queue::verif::site::SEM_WAKE_UNPARKED, self as *const _ as usize);
-                if w.take_release() {
-                    self.post();
-                }
-            })
-            .expect("got null blocker!");
+    fn wakeup_one(&self) -> bool {
+        let w = self.to_wake.pop().expect("got null blocker!");
+        #[cfg(may_verif)]
+        may_queue::verif::point(may_queue::verif::site::SEM_WAKEUP_POPPED, self as *const _ as usize);
+        w.unpark();
+        #[cfg(may_verif)]
+        may_queue::verif::point(may_queue::verif::site::SEM_WAKE_UNPARKED, self as *const _ as usize);
+        w.take_release()
     }
 
     // return false if timeout
@@ -90,7 +86,9 @@ impl Semphore {
         if self.cnt.fetch_sub(1, Ordering::SeqCst) > 0 {
             #[cfg(may_verif)]
             may_queue::verif::point(may_queue::verif::site::SEM_WAIT_SUBBED, self as *const _ as usize);
-            self.wakeup_one();
+            if self.wakeup_one() {
+                self.post();
+            }
         }
 
         #[cfg(may_verif)]
@@ -157,14 +155,18 @@ impl Semphore {
     /// increment the semphore value
     /// and would wakeup a thread/coroutine that is calling `wait`
     pub fn post(&self) {
-        let cnt = self.cnt.fetch_add(1, Ordering::SeqCst);
-        assert!(cnt < isize::MAX);
-        #[cfg(may_verif)]
-        may_queue::verif::point(may_queue::verif::site::SEM_POST_ADDED, self as *const _ as usize);
+        // every waiter that has given up (timeout, cancel) passes the permit on to the
+        // next one: a loop, as a recursion its depth would be the number of such waiters
+        loop {
+            let cnt = self.cnt.fetch_add(1, Ordering::SeqCst);
+            assert!(cnt < isize::MAX);
+            #[cfg(may_verif)]
+            may_queue::verif::point(may_queue::verif::site::SEM_POST_ADDED, self as *const _ as usize);
 
-        // try to wakeup one waiter first
-        if cnt < 0 {
-            self.wakeup_one();
+            // try to wakeup one waiter first
+            if cnt >= 0 || !self.wakeup_one() {
+                return;
+            }
         }
     }
 
